@@ -1,0 +1,94 @@
+// Verification-only pass-through replacements for `AtomicUsize` and `UnsafeCell`.
+//
+// Compiled only with `--cfg cadence_verif`. Every operation is reported to an installable
+// tracer (before it happens, so a scheduler can delay it, and after, with the value observed)
+// and then performed on the real std type with exactly the ordering it was given.
+
+use std::sync::atomic::Ordering;
+use std::sync::RwLock;
+
+#[derive(Debug, Clone, Copy, PartialEq, Eq)]
+pub enum ShimOp {
+    Load(Ordering),
+    Store(usize, Ordering),
+    CompareExchange(usize, usize, Ordering, Ordering),
+    CellGet,
+}
+
+#[derive(Debug, Clone, Copy, PartialEq, Eq)]
+pub enum ShimEvent {
+    Before(ShimOp),
+    After(ShimOp, Result<usize, usize>),
+}
+
+type Tracer = Box<dyn Fn(usize, ShimEvent) + Send + Sync>;
+
+static TRACER: RwLock<Option<Tracer>> = RwLock::new(None);
+
+/// Install (or remove) the tracer. The first argument passed to it is the address of the
+/// object the operation is performed on, so several holders can be told apart.
+pub fn set_tracer(t: Option<Tracer>) {
+    *TRACER.write().unwrap() = t;
+}
+
+fn trace(obj: usize, ev: ShimEvent) {
+    if let Some(t) = TRACER.read().unwrap().as_ref() {
+        t(obj, ev);
+    }
+}
+
+#[derive(Debug, Default)]
+pub struct AtomicUsize(std::sync::atomic::AtomicUsize);
+
+impl AtomicUsize {
+    pub const fn new(v: usize) -> Self {
+        AtomicUsize(std::sync::atomic::AtomicUsize::new(v))
+    }
+
+    pub fn load(&self, order: Ordering) -> usize {
+        let id = self as *const _ as usize;
+        trace(id, ShimEvent::Before(ShimOp::Load(order)));
+        let v = self.0.load(order);
+        trace(id, ShimEvent::After(ShimOp::Load(order), Ok(v)));
+        v
+    }
+
+    pub fn store(&self, val: usize, order: Ordering) {
+        let id = self as *const _ as usize;
+        trace(id, ShimEvent::Before(ShimOp::Store(val, order)));
+        self.0.store(val, order);
+        trace(id, ShimEvent::After(ShimOp::Store(val, order), Ok(val)));
+    }
+
+    pub fn compare_exchange(
+        &self,
+        current: usize,
+        new: usize,
+        success: Ordering,
+        failure: Ordering,
+    ) -> Result<usize, usize> {
+        let id = self as *const _ as usize;
+        let op = ShimOp::CompareExchange(current, new, success, failure);
+        trace(id, ShimEvent::Before(op));
+        let r = self.0.compare_exchange(current, new, success, failure);
+        trace(id, ShimEvent::After(op, r));
+        r
+    }
+}
+
+#[derive(Debug, Default)]
+pub struct UnsafeCell<T>(std::cell::UnsafeCell<T>);
+
+impl<T> UnsafeCell<T> {
+    pub const fn new(v: T) -> Self {
+        UnsafeCell(std::cell::UnsafeCell::new(v))
+    }
+
+    pub fn get(&self) -> *mut T {
+        let id = self as *const _ as usize;
+        trace(id, ShimEvent::Before(ShimOp::CellGet));
+        let p = self.0.get();
+        trace(id, ShimEvent::After(ShimOp::CellGet, Ok(0)));
+        p
+    }
+}
